@@ -58,10 +58,38 @@ func unmarshalFromYaml(yamlSpecs []byte) ([]OperationSpec, error) {
 			return nil, err
 		}
 
+		// yaml.v3 decodes numbers in free-form fields into Go ints, encoding/json into float64.
+		// Make both decoders produce the same values (an int panics in Unstructured.DeepCopy).
+		if err := normalizeFreeFormFields(&doc); err != nil {
+			return nil, err
+		}
+
 		specSlice = append(specSlice, doc)
 	}
 
 	return specSlice, nil
+}
+
+// normalizeFreeFormFields passes the free-form fields of a YAML-decoded spec through JSON,
+// so they hold exactly the types the JSON decoder would have produced.
+func normalizeFreeFormFields(doc *OperationSpec) error {
+	for _, field := range []*any{&doc.Object, &doc.MergePatch, &doc.JSONPatch} {
+		switch (*field).(type) {
+		case nil, string:
+			continue
+		}
+		data, err := json.Marshal(*field)
+		if err != nil {
+			return err
+		}
+		var normalized any
+		if err := json.Unmarshal(data, &normalized); err != nil {
+			return err
+		}
+		*field = normalized
+	}
+
+	return nil
 }
 
 func applyJQPatch(jqFilter string, fl filter.Filter, obj *unstructured.Unstructured) (*unstructured.Unstructured, error) {
